@@ -1,9 +1,11 @@
 """C17 - a torn or corrupt cache file is a miss: exception escape + writer/reader agreement."""
-from ..rules import cache
+from ..rules import cache, dar
 
 
 def check(ctx, rep):
     cache.exc_1(ctx, rep)
     roles = cache.Roles(ctx)
     cache.cache_4(ctx, rep, roles)
+    # an unbound local in a handler or clean-up path raises UnboundLocalError, which no OSError handler absorbs
+    dar.da_rule(ctx, rep, ['parso/cache.py'])
     rep.note('Not decided: "returns the tree of the current content"; the in-use clause of clean-up (atime based).')
